@@ -41,6 +41,33 @@ pub fn decode(u: &mut Bytes) -> Case {
         .map(|_| (ORDERS[u.choice(5)], [Res::Pass, Res::Blocked, Res::Wait, Res::Pass][u.choice(4)]))
         .collect();
     let stats = (0..ns).map(|_| ORDERS[u.choice(5)]).collect();
+    // order values are arbitrary u32: a palette drawn from the tail replaces the small menu in half of the cases
+    // (the library's own slots use 1000..5000; values at and above 2^31 and arbitrary 32-bit values are legitimate)
+    let palette: Option<[u32; 5]> = match u.tail_choice(6) {
+        0 | 1 | 2 => None,
+        3 => Some([1000, 2000, 2000, 5000, u32::MAX]),
+        4 => Some([0, (1u32 << 31) - 1, 1u32 << 31, 1u32 << 31, u32::MAX]),
+        _ => {
+            let mut a = [0u32; 5];
+            for x in a.iter_mut() {
+                *x = ((u.tail_u8() as u32) << 24) | ((u.tail_u8() as u32) << 16) | ((u.tail_u8() as u32) << 8) | u.tail_u8() as u32;
+            }
+            a[2] = a[1]; // keep a tie
+            Some(a)
+        }
+    };
+    let remap = |o: u32| -> u32 {
+        match &palette {
+            None => o,
+            Some(p) => p[ORDERS.iter().position(|x| *x == o).unwrap_or(0).max(if o == 1 { 1 } else { 0 })],
+        }
+    };
+    let preps: Vec<u32> = preps;
+    let preps = preps.into_iter().map(remap).collect();
+    let checks: Vec<(u32, Res)> = checks;
+    let checks = checks.into_iter().map(|(o, r)| (remap(o), r)).collect();
+    let stats: Vec<u32> = stats;
+    let stats = stats.into_iter().map(remap).collect();
     // a generated interleaving of insertions
     let mut remaining = [np, nc, ns];
     let mut insertion = Vec::new();
@@ -275,7 +302,7 @@ impl Property for C13 {
         vec![("prop", 500_000, 64)]
     }
     fn rule(&self) -> String {
-        "bytes -> custom SlotChain with 0..4 prepare, check and stat slots, order values from {0,1,1,2,7} (ties), a generated insertion interleaving, each check slot returning Pass / Blocked(Other(100+i), \"msg i\") / Wait(0); build() then exit() once if passed; the call log of the recording slots is judged against the contract; plus an exhaustive enumeration of all chains with <= 2 slots per kind over orders {0,1,7} (reported under coverage.extra); non-trivial = >= 2 check slots with the blocker not last, or several blockers, or equal order values; distinct = distinct decoded cases".into()
+        "bytes -> custom SlotChain with 0..4 prepare, check and stat slots, order values from {0,1,1,2,7} (ties) or, in half of the cases, from a palette of large values ({1000,2000,2000,5000,u32::MAX}, {0,2^31-1,2^31,2^31,u32::MAX}, or five arbitrary 32-bit values with a tie), a generated insertion interleaving, each check slot returning Pass / Blocked(Other(100+i), \"msg i\") / Wait(0); build() then exit() once if passed; the call log of the recording slots is judged against the contract; plus an exhaustive enumeration of all chains with <= 2 slots per kind over orders {0,1,7,u32::MAX} (reported under coverage.extra); non-trivial = >= 2 check slots with the blocker not last, or several blockers, or equal order values; distinct = distinct decoded cases".into()
     }
     fn assumptions(&self) -> Vec<String> {
         vec![
@@ -303,7 +330,7 @@ impl Property for C13 {
     }
     fn extra(&self, _tier: Tier) -> Option<Result<(u64, serde_json::Value), Failure>> {
         // exhaustive: <= 2 slots per kind, orders {0,1,7}, all results, both insertion orders of kinds
-        let orders = [0u32, 1, 7];
+        let orders = [0u32, 1, 7, u32::MAX];
         let results = [Res::Pass, Res::Blocked, Res::Wait];
         let mut n = 0u64;
         let mut kinds: Vec<Vec<u32>> = vec![vec![]];
@@ -353,6 +380,6 @@ impl Property for C13 {
                 }
             }
         }
-        Some(Ok((n, serde_json::json!({"exhaustive_subdomain": "all chains with <= 2 slots per kind, order values in {0,1,7}, every Pass/Blocked/Wait assignment, two insertion orders", "chains": n, "exhaustive": true}))))
+        Some(Ok((n, serde_json::json!({"exhaustive_subdomain": "all chains with <= 2 slots per kind, order values in {0,1,7,u32::MAX}, every Pass/Blocked/Wait assignment, two insertion orders", "chains": n, "exhaustive": true}))))
     }
 }
